@@ -47,7 +47,7 @@ def run(rep):
     rep.add_tlc(res)
     recs = res.json
     mprun.validate_model(progs, recs)
-    opts = [dict(rp.OPTION_SETS[0], ops='probe')]
+    opts = [dict(rp.OPTION_SETS[0], ops='probe'), dict(rp.LISTS_OPTION, ops='probe')]
     div, nrun, errs = rp.replay_all(progs, recs, opts, name='c03')
     calls = rp.replay_all.opcalls
     if not calls:
